@@ -123,7 +123,7 @@ def _one_run(ctx, case, shared, second=False):
     for e in env.tags("expect_mismatch", "assert_mismatch"):
         for dname, h in e[3]:
             nontrivial = True
-            want = bytes.fromhex(h)
+            want = cells_at["cells"].get(h[5:]) if h.startswith("cell:") else bytes.fromhex(h)
             ok = want in pool
             ctx.check(ok, "mismatch.detail-delivered",
                       lambda: {"mismatch": e[2], "name": dname, "want": want, **detail()},
@@ -240,7 +240,7 @@ def _details_attached(spec, f, fid):
 SUBCHECKS = {"prog": x_prog, "rerun": x_rerun}
 
 FEATURES = ("details", "expect", "mismatch_details", "fixture", "onexc", "nested_cleanup", "decor",
-            "own_exc", "force", "clone", "eq_exc", "peek")
+            "own_exc", "force", "clone", "eq_exc", "peek", "old_style_fixture")
 
 
 def _sanitise(prog):
